@@ -170,8 +170,10 @@ def replay(beh, pats):
 CONSTS = dict(NCtx=2, Valid={"v0", "v1", "v2"}, Invalid={"i1", "i2"}, MaxDepth=3)
 
 
-def _cfg(variant, mode, maxlen, *, view, props=True, invs=("TypeOK", "NeverInvalid", "Balanced"), ncx=2):
+def _cfg(variant, mode, maxlen, *, view, props=True, invs=("TypeOK", "NeverInvalid", "Balanced"), ncx=2, maxdepth=None):
     c = dict(CONSTS, NCtx=ncx, Variant=variant, EmitMode=mode, MaxLen=maxlen)
+    if maxdepth:
+        c["MaxDepth"] = maxdepth
     return tlc.cfg_text(constants=c, invariants=invs,
                         properties=(props if isinstance(props, tuple) else ("RestoresEntry", "InvalidInert")) if props else (),
                         view="AbsView" if view else None)
@@ -220,8 +222,15 @@ def run(tier: str, seed: int, replay_path: str | None = None) -> int:
                     workdir=wd, simulate=f"num={20000 if deep else 1500}", depth=15, seed=seed, workers=1)
         o.add_tlc(r, "emit: random walks of length 14")
         behs += [x["v"] for x in r.by_tag("beh")]
+        # nests deeper than the exhaustive bound: `with` blocks up to 12 deep (re-entered context objects included)
+        n_before = len(behs)
+        r = tlc.run("Descriptor", _cfg("per_entry_stack", "drain", 34, view=False, props=False, invs=(), maxdepth=12, ncx=3),
+                    workdir=wd, simulate=f"num={6000 if deep else 600}", depth=50, seed=seed + 1, workers=1)
+        o.add_tlc(r, "emit: random walks of 34 steps with nesting up to 12, then every open block is left")
+        behs += [x["v"] for x in r.by_tag("beh")]
+        o.notes["behaviours_deep_nesting"] = len(behs) - n_before
         o.notes.update(behaviours_transition_cover=n_trans, behaviours_all_paths=n_paths,
-                       behaviours_random=len(behs) - n_trans - n_paths)
+                       behaviours_random=n_before - n_trans - n_paths)
         if replay_path:
             import json
             behs = [json.load(open(replay_path))["case"]["hist"]]
